@@ -335,7 +335,7 @@ def cw4(P, C, only=None):
     nulls = [i for i in f.walk() if f.k(i) == "BinaryOperator" and f.nodes[i]["op"] == "=" and _is_table_data(f, f.nodes[i]["ch"][0])
              and (f.nodes[f.strip(f.nodes[i]["ch"][1])]["k"] in ("GNUNullExpr", "CXXNullPtrLiteralExpr") or f.nodes[f.strip(f.nodes[i]["ch"][1])].get("cv") == 0)]
     pos = f.node_positions()
-    ok = len(dels) == 1 and "splinetable" in f.nodes[dels[0]].get("destroyedType", "") and f.nodes[dels[0]].get("nonTrivialDtor")
+    ok = len(dels) == 1 and "splinetable" in (f.nodes[dels[0]].get("destroyedCType") or f.nodes[dels[0]].get("destroyedType", "")) and f.nodes[dels[0]].get("nonTrivialDtor")
     C.ob("CW-4", "splinetable_free", "delete-typed", ok, f.where(), "deletes the handle as the C++ table type exactly once")
     ok2 = False
     if dels and nulls and dels[0] in pos and nulls[0] in pos:
